@@ -8,7 +8,7 @@ import z3
 
 from .core import (Sym, OutsideSubset, EngineError, Infeasible, PyRaise, ExcVal, py_raise, binop, unop, compare,
                    wrap, to_z3, And, Or, Not, Eq, If)
-from .values import (Obj, Extern, GuardedList, SymSet, SymMap, MapBox, SymArr, ModelValue, Uninterp, FlexDict, unflex, IdSet)
+from .values import (Obj, Extern, GuardedList, SymSet, SymMap, MapBox, SymArr, ModelValue, Uninterp, FlexDict, unflex, IdSet, Native)
 from . import strings
 
 LOG_CALL = re.compile(r'(^|\.)(log|logger|flowirLogger|graphLogger|moduleLogger|rootLogger|dsl_log|logging)'
@@ -265,6 +265,8 @@ class Interp:
             return self.call_method(f.obj, f.name, args, kwargs)
         if isinstance(f, type) and issubclass(f, BaseException):
             return ExcVal(f, args)
+        if isinstance(f, Native) or isinstance(getattr(f, '__self__', None), Native):
+            return f(*args, **kwargs)
         from . import models
         m = models.BUILTINS.get(f) if _hashable(f) else None
         if m is None and models._is_repo_deep_copy(f):
